@@ -44,6 +44,8 @@ PROPS["C04"] = _tower("per-tracker theorems for each of the four loops + block-l
 PROPS["C06"] = _tower("recover_pk is an input (the signer); the byte-exact request messages are recomputed by the harness independently of the tower's code. History level: every appointment row of every reachable state was put there by an authenticated add_appointment of its owner; non-interference of whole histories (reads included) is per operation (FrameK) + monitors.")
 PROPS["C07"] = _tower("conservation proved in differential form per primitive, memory = disk for every history; the SUM form (granted = available + occupied + forfeited over a whole history) is not a theorem: it is recomputed by the monitor from the real tables after every operation. f32 formula proved exact below 2^24 and compared exhaustively with the real function.")
 PROPS["C07"]["components"] = ["tower", "slots"]
+# restarts that replay blocks (the recorded block lags behind a long poll) are explored by the crash component
+PROPS["C02"]["components"] = ["tower", "crash"]
 PROPS["C08"] = _tower("signature scheme abstract here (C17); byte layouts in C16.")
 PROPS["C09"] = _tower("u32 wrap-around of the two unchecked additions excluded by precondition. History level (nobody outlives expiry + grace) needs duration + grace > 0, connected heights below u32::MAX and disconnections that do not raise the height.")
 
